@@ -109,7 +109,7 @@ def load_known():
 
 def is_known(known, prop, v):
     for k in known:
-        if k["property"] == prop and k["cls"] == v["cls"] and k["site"] == v["site"]:
+        if k["property"] == prop and k["cls"] == v["cls"] and (k["site"] == v["site"] or k["site"] == "*"):
             return k
     return None
 
@@ -275,11 +275,15 @@ def run_check(prop, tier, verif_seed, replay_file=None, budget_override=None):
             sigs.setdefault((v["cls"], v["site"]), (r, v))
     reported = 0
     known_hits = 0
+    known_printed = set()
     for (cls, site), (r, v) in sorted(sigs.items()):
         k = is_known(known, prop, v)
         if k:
             known_hits += 1
-            log(f"KNOWN-FINDING: property={prop} class={cls} site={site} :: {k['what']}")
+            kid = (k["cls"], k["site"])
+            if kid not in known_printed:
+                known_printed.add(kid)
+                log(f"KNOWN-FINDING: property={prop} class={k['cls']} site={k['site']} :: {k['what']}")
             continue
         if reported >= 3:
             continue
